@@ -42,7 +42,11 @@ def job_compose(job):
     out = {'evaluations': 0, 'failures': [], 'samples': [], 'configs': 0}
     pats = set()
     for cfg in job['configs']:
-        alg = make_algebra(cfg)
+        try:
+            alg = make_algebra(cfg)
+        except Exception as _e:
+            out['failures'].append({'config': cfg, 'what': 'constructing an admissible algebra raised', 'error': type(_e).__name__ + ': ' + str(_e)[:150]})
+            continue
         fr = O.Frame(alg)
         out['configs'] += 1
         for ak, bk in _patterns(rng, alg, cfg):
@@ -130,7 +134,11 @@ def job_inverse(job):
     out = {'evaluations': 0, 'failures': [], 'samples': [], 'configs': 0}
     pats = set()
     for cfg in job['configs']:
-        alg = make_algebra(cfg)
+        try:
+            alg = make_algebra(cfg)
+        except Exception as _e:
+            out['failures'].append({'config': cfg, 'what': 'constructing an admissible algebra raised', 'error': type(_e).__name__ + ': ' + str(_e)[:150]})
+            continue
         fr = O.Frame(alg)
         out['configs'] += 1
         N = 2 ** alg.d
@@ -216,7 +224,11 @@ def job_symbolic(job):
     out = {'evaluations': 0, 'failures': [], 'samples': [], 'configs': 0}
     pats = set()
     for cfg in job['configs']:
-        alg = make_algebra(cfg)
+        try:
+            alg = make_algebra(cfg)
+        except Exception as _e:
+            out['failures'].append({'config': cfg, 'what': 'constructing an admissible algebra raised', 'error': type(_e).__name__ + ': ' + str(_e)[:150]})
+            continue
         fr = O.Frame(alg)
         out['configs'] += 1
         for it in range(cfg.get('random', 5)):
@@ -226,7 +238,7 @@ def job_symbolic(job):
                 vals, env = [], {}
                 for k in keys:
                     if rng.random() < 0.7:
-                        s = sympy.Symbol(f'{prefix}{k}')
+                        s = sympy.Symbol(f'{prefix}{alg.bin2canon[k][1:]}')      # kingdon's own naming: a, a1, a2, a12, ..
                         v = F(rng.randint(-5, 5) or 1, rng.randint(1, 3))
                         env[s] = v
                         vals.append(s)
@@ -376,7 +388,11 @@ def job_relabel(job):
     out = {'evaluations': 0, 'failures': [], 'samples': [], 'configs': 0}
     pats = set()
     for cfg in job['configs']:
-        alg = make_algebra(cfg)
+        try:
+            alg = make_algebra(cfg)
+        except Exception as _e:
+            out['failures'].append({'config': cfg, 'what': 'constructing an admissible algebra raised', 'error': type(_e).__name__ + ': ' + str(_e)[:150]})
+            continue
         fr = O.Frame(alg)
         sig = fr.sig
         dflt = Algebra(signature=list(sig), start_index=0)
